@@ -65,6 +65,9 @@ type Ev struct {
 	Img    []byte // flush: image when the call returned
 	End    int64
 	NextOK []bool
+	// the harness did not execute the operation (its collection does not
+	// exist in this, possibly shrunk, plan): no checker looks at it
+	Skipped bool
 }
 
 func (o ConOp) key() []byte {
@@ -149,6 +152,17 @@ func (c *conRun) execOne(store *gkvlite.Store, op ConOp, ev *Ev) {
 	c.s.SetOp(op.Kind, op.WV)
 	coll := func() *gkvlite.Collection { return store.GetCollection(op.C) }
 	switch op.Kind {
+	case "snapshot", "flush", "copyto", "setcoll", "rmcoll":
+	default:
+		if coll() == nil {
+			// a shrunk plan may have lost the operation that created the
+			// collection: skip, do not dereference a nil handle
+			ev.Err = "harness: no such collection"
+			ev.Skipped = true
+			return
+		}
+	}
+	switch op.Kind {
 	case "setitem":
 		it := &gkvlite.Item{Key: op.key(), Val: op.Val.Bytes(), Priority: op.Prio}
 		c.call(ev, func() {
@@ -187,6 +201,23 @@ func (c *conRun) execOne(store *gkvlite.Store, op ConOp, ev *Ev) {
 				return
 			}
 			_ = coll().AllocStats()
+		})
+	case "setcoll":
+		// the mutator re-registers a collection nobody else uses
+		c.call(ev, func() {
+			if store.SetCollection(op.C, nil) == nil {
+				ev.Err = "SetCollection returned nil"
+			}
+		})
+		c.w.probe("concurrent-setcollection-on-existing-name")
+	case "rmcoll":
+		c.call(ev, func() { store.RemoveCollection(op.C) })
+		c.w.probe("concurrent-removecollection")
+	case "write":
+		c.call(ev, func() {
+			if err := coll().Write(); err != nil {
+				ev.Err = err.Error()
+			}
 		})
 	case "flush":
 		c.call(ev, func() {
@@ -295,7 +326,9 @@ func (c *conRun) execOne(store *gkvlite.Store, op ConOp, ev *Ev) {
 						sub.Inv = c.s.Tick()
 						c.execOne(store, sub.Op, sub)
 						sub.Ret = c.s.Tick()
-						ev.Subs = append(ev.Subs, sub)
+						if !sub.Skipped {
+							ev.Subs = append(ev.Subs, sub)
+						}
 					}
 				case 'c':
 					it.Close()
@@ -352,7 +385,9 @@ func (c *conRun) execOne(store *gkvlite.Store, op ConOp, ev *Ev) {
 					}
 					continue
 				}
-				ev.Subs = append(ev.Subs, sub)
+				if !sub.Skipped {
+					ev.Subs = append(ev.Subs, sub)
+				}
 			}
 			c.s.Yield("op-snapclose")
 			snap.Close()
@@ -437,9 +472,11 @@ func RunCon(plan *Plan, cp *ConPlan, prop string) (*RunResult, *conRun) {
 				if op.Kind != "snapshot" {
 					ev.Ret = s.Tick()
 				}
-				s.mu.Lock()
-				c.evs = append(c.evs, ev)
-				s.mu.Unlock()
+				if !ev.Skipped {
+					s.mu.Lock()
+					c.evs = append(c.evs, ev)
+					s.mu.Unlock()
+				}
 				Progress.Add(1)
 			}
 		})
@@ -508,7 +545,7 @@ func (c *conRun) buildVersions() *history {
 	for _, ev := range c.evs {
 		collect := func(e *Ev) {
 			switch e.Op.Kind {
-			case "setitem", "set", "del":
+			case "setitem", "set", "del", "setcoll", "rmcoll":
 				muts = append(muts, e)
 			}
 		}
@@ -525,6 +562,24 @@ func (c *conRun) buildVersions() *history {
 		}
 		cur := vs[len(vs)-1].st
 		if ev.Panic != "" {
+			continue
+		}
+		switch ev.Op.Kind {
+		case "rmcoll":
+			// the collection does not exist any more: a version without state
+			if cur != nil {
+				hi.vers[ev.Op.C] = append(vs, version{st: nil, inv: ev.Inv, ret: ev.Ret})
+			}
+			continue
+		case "setcoll":
+			// on an existing name the contents stay; after a removal the
+			// name denotes a new, empty collection
+			if cur == nil {
+				hi.vers[ev.Op.C] = append(vs, version{st: &MColl{}, inv: ev.Inv, ret: ev.Ret})
+			}
+			continue
+		}
+		if cur == nil {
 			continue
 		}
 		switch ev.Op.Kind {
@@ -576,6 +631,9 @@ func (hi *history) window(coll string, inv, ret int) (lo, hiIdx int) {
 
 // matches reports whether a read observation equals version v.
 func evMatches(ev *Ev, v *MColl) bool {
+	if v == nil {
+		return false // the collection did not exist in that version
+	}
 	op := ev.Op
 	switch op.Kind {
 	case "get":
@@ -859,15 +917,24 @@ func (c *conRun) checkFlushes(hi *history) {
 		t := ev.Inv
 		for _, name := range names {
 			dc := dec.Colls[name]
-			if dc == nil {
+			vs := hi.vers[name]
+			everAbsent := false
+			for _, v := range vs {
+				if v.st == nil {
+					everAbsent = true
+				}
+			}
+			if dc == nil && !everAbsent {
 				c.fail("flush-names", "flush", "task %s: collection %q missing from the flushed root record", ev.Task, name)
 				return
 			}
-			vs := hi.vers[name]
 			best := -1
 			bestT := 0
 			for j, v := range vs {
-				if !EqualItems(dc.Items, v.st.Items, true) {
+				if (dc == nil) != (v.st == nil) {
+					continue
+				}
+				if dc != nil && !EqualItems(dc.Items, v.st.Items, true) {
 					continue
 				}
 				// version j may be current from inv_j (0 for the initial one) until ret_{j+1}
@@ -951,7 +1018,11 @@ func (c *conRun) finalAudit(hi *history) {
 		return
 	}
 	for name, vs := range hi.vers {
-		c.h.M.Colls[name] = vs[len(vs)-1].st
+		if st := vs[len(vs)-1].st; st != nil {
+			c.h.M.Colls[name] = st
+		} else {
+			delete(c.h.M.Colls, name)
+		}
 	}
 	c.w.Judge = nil
 	c.w.auditStoreMode(c.h, "final-audit", "visit")
